@@ -151,9 +151,18 @@ def interpret(res, umap, crate):
                     lab_spans.append((ok['label'], s))
                     break
         if lab_spans:
-            # prefer non-aux labels
+            # prefer the label of a CLAUSE line (the failed contract clause itself) over a label that
+            # sits on a source line inside a wide span (`@@closure k label=..`), then non-aux labels
+            clause_labs = []
+            for s in spans:
+                for k in range(s['line_start'], s['line_end'] + 1):
+                    ok = origin(k)
+                    if ok.get('label') and ok.get('o') in ('clause', 'tmpl'):
+                        clause_labs.append(ok['label'])
+                        break
+            named_c = [l for l in clause_labs if not l.startswith('aux.')]
             named = [l for l, _ in lab_spans if not l.startswith('aux.')]
-            label = named[0] if named else lab_spans[0][0]
+            label = named_c[0] if named_c else (named[0] if named else lab_spans[0][0])
         if kind == 'rlimit':
             out['rlimit'].append({'fn': fn, 'msg': msg})
             continue
